@@ -314,7 +314,19 @@ def values_at(P, fn, target_ev, expr, env0, max_states=5000):
     return out
 
 
-def trace_calls(P, fn, env0, max_steps=20000, _depth=0, assume_calls=None):
+def _subst_calls(e, val):
+    """copy of e with every call replaced by the literal val (results of calls on the success skeleton)"""
+    if not isinstance(e, dict):
+        return e
+    if e.get('op') == 'call':
+        return {'op': 'lit', 'c': val, 't': e.get('t', 'i32')}
+    out = dict(e)
+    if 'k' in e:
+        out['k'] = [_subst_calls(k, val) for k in e['k']]
+    return out
+
+
+def trace_calls(P, fn, env0, max_steps=20000, _depth=0, assume_calls=None, partial=False):
     """Finite-domain evaluation of the control skeleton of fn for ONE element of
     the finite input domain (env0 binds the enumerated parameters, e.g. a
     concrete length and address): values that cannot be evaluated become
@@ -323,6 +335,7 @@ def trace_calls(P, fn, env0, max_steps=20000, _depth=0, assume_calls=None):
     an int, ('deref', address), ('addr', local name) or None."""
     fd = FD(P)
     env = dict(env0)
+    sym = {}     # pointer locals holding an address that is only known symbolically: name -> ('off', base, k)
     out = []
     b = fn.entry
     steps = 0
@@ -346,10 +359,18 @@ def trace_calls(P, fn, env0, max_steps=20000, _depth=0, assume_calls=None):
             inner = strip_casts(a0['k'][0])
             if inner.get('op') == 'ref':
                 return ('addr', inner['name'])
+            if inner.get('op') == 'sub' and strip_casts(inner['k'][0]).get('op') == 'ref':
+                try:
+                    esz = {'u8': 1, 'i8': 1, 'u16': 2, 'u32': 4, 'u64': 8, 'i32': 4, 'i64': 8}.get(inner.get('t'), 1)
+                    return ('off', strip_casts(inner['k'][0])['name'], fd.ev(fn, inner['k'][1], env) * esz)
+                except (Top, ZeroDivisionError):
+                    return None
         try:
             return fd.ev(fn, a0, env)
         except (Top, ZeroDivisionError):
             if a0.get('op') == 'ref':
+                if a0['name'] in sym:
+                    return sym[a0['name']]
                 return ('var', a0['name'])
             # base + offset into a local buffer whose address is not modelled
             if a0.get('op') == 'bin' and a0['o'] == '+':
@@ -366,6 +387,8 @@ def trace_calls(P, fn, env0, max_steps=20000, _depth=0, assume_calls=None):
         for ev in b.events:
             steps += 1
             if steps > max_steps:
+                if partial:
+                    return out          # the caller only needs a prefix of the call sequence
                 raise Top()
             if ev.k == 'decl':
                 try:
@@ -393,6 +416,11 @@ def trace_calls(P, fn, env0, max_steps=20000, _depth=0, assume_calls=None):
                         env[name] = wrap(fd.ev(fn, fake, env), l0.get('t'))
                 except (Top, ZeroDivisionError, KeyError):
                     env.pop(name, None)
+                    sym.pop(name, None)
+                    if rhs is not None and o == '=':
+                        d_ = arg_desc(rhs)
+                        if isinstance(d_, tuple) and d_[0] == 'off':
+                            sym[name] = d_
             elif ev.k == 'call':
                 g = P.functions.get(ev.callee) if P is not None else None
                 if g is not None and g.file == fn.file and g is not fn and _depth < 3:
@@ -421,7 +449,12 @@ def trace_calls(P, fn, env0, max_steps=20000, _depth=0, assume_calls=None):
             b = b.succs[0][0]
             continue
         try:
-            c = fd.ev(fn, b.cond, env)      # Top propagates: the skeleton is not decidable for this input
+            try:
+                c = fd.ev(fn, b.cond, env)      # Top propagates: the skeleton is not decidable for this input
+            except Top:
+                if assume_calls is None:
+                    raise
+                c = fd.ev(fn, _subst_calls(b.cond, assume_calls), env)
         except Top:
             import os
             if os.environ.get('JLS_TRACE_DEBUG'):
